@@ -22,7 +22,8 @@ func init() {
 			"dispatch child-chain name chainName+infix+\"-\"+1 byte of every resolved dispatch build, fits iptables.MaxChainNameLength. (sanitise) every value reaching ActionFactory.Jump/GoTo or Chain.Name in " +
 			"felix/rules derives — through phis, slices, parameters (≤3 caller levels) — only from string constants, EndpointChainName, PolicyChainName, ProfileChainName, PolicyGroup.ChainName or the child-chain " +
 			"Sprintf; every GetLengthLimitedID/EndpointChainName length argument is the back-end limit (r.maxNameLength or the iptables/nftables constant selected by nft). (marker) in GetLengthLimitedID the " +
-			"unshortened return is only reachable when the name fits and is not a full-length name starting with the marker; the shortened return is prefix+marker+hash cut to the remaining length. (ipsets) static " +
+			"shortened return is prefix+marker+hash[0:cut] where, as symbolic min/linear expressions over len(prefix), maxLength and the hash length, cut ≤ maxLength-len(marker)-len(prefix) (fits the limit) and cut ≤ len(hash) (the slice stays inside the hash: a min() with len(hash)/EncodedLen(digest size) or a guard/clamp); the " +
+			"unshortened return is only reachable when the name fits maxLength and is not a name of exactly the shortened length L=len(prefix)+len(marker)+cut starting with the marker (the length test must compare against that same expression L). (ipsets) static " +
 			"IP set IDs are distinct, contain no ':' and survive NameForMainIPSet without truncation. (fields) PolicyChainName, ProfileChainName and PolicyGroup.UniqueID read, in their static call closure, every exported field of " +
 			"every identity struct they are handed (PolicyID, ProfileID, PolicyGroup and its member PolicyIDs); PolicyID.KindShortName maps kinds to pairwise distinct constants. (through) every return of EndpointChainName, " +
 			"PolicyChainName, ProfileChainName, PolicyGroup.ChainName and NameForMainIPSet is a result of GetLengthLimitedID / combineAndTrunc (possibly via a helper) or constant prefix + hash cut to a constant length; " +
@@ -53,12 +54,18 @@ func init() {
 				Old: "func ProfileChainName(prefix ProfileChainNamePrefix, profID *types.ProfileID, nft bool) string {\n\tmaxLen := iptables.MaxChainNameLength\n\tif nft {\n\t\tmaxLen = nftables.MaxChainNameLength\n\t}", New: "func ProfileChainName(prefix ProfileChainNamePrefix, profID *types.ProfileID, nft bool) string {\n\tmaxLen := iptables.MaxChainNameLength + 4\n\tif nft {\n\t\tmaxLen = nftables.MaxChainNameLength\n\t}", Expect: "C37.sanitise/maxlen/ProfileChainName"},
 			{Name: "set-mark chain named with a fixed length", File: "felix/rules/endpoints.go",
 				Old: "\tchainName := EndpointChainName(endpointPrefix, name, r.maxNameLength)\n\n\tif endPointMark", New: "\tchainName := EndpointChainName(endpointPrefix, name, 28)\n\n\tif endPointMark", Expect: "C37.sanitise/maxlen/DefaultRuleRenderer.endpointSetMarkChain"},
-			{Name: "full-length names starting with the marker kept verbatim", File: "libcalico-go/lib/hash/unique_id.go",
-				Old: "if totalLen > maxLength || (totalLen == maxLength && suffix[0:1] == shortenedPrefix) {", New: "if totalLen > maxLength {", Expect: "C37.marker/plain-not-marker"},
+			{Name: "names of the shortened length starting with the marker kept verbatim", File: "libcalico-go/lib/hash/unique_id.go",
+				Old: "if totalLen > maxLength || (totalLen == shortenedLen && suffix[0:1] == shortenedPrefix) {", New: "if totalLen > maxLength {", Expect: "C37.marker/plain-not-marker"},
+			{Name: "clash test compares against maxLength although shortened names can be shorter", File: "libcalico-go/lib/hash/unique_id.go",
+				Old: "(totalLen == shortenedLen && suffix[0:1]", New: "(totalLen == maxLength && suffix[0:1]", Expect: "C37.marker/plain-not-marker"},
 			{Name: "names one over the limit kept verbatim", File: "libcalico-go/lib/hash/unique_id.go",
-				Old: "if totalLen > maxLength || (totalLen == maxLength", New: "if totalLen > maxLength+1 || (totalLen == maxLength", Expect: "C37.marker/plain-fits"},
+				Old: "if totalLen > maxLength || (totalLen == shortenedLen", New: "if totalLen > maxLength+1 || (totalLen == shortenedLen", Expect: "C37.marker/plain-fits"},
 			{Name: "shortened names lose the marker", File: "libcalico-go/lib/hash/unique_id.go",
-				Old: "return fixedPrefix + shortenedPrefix + hash[0:charsLeftForHash]", New: "return fixedPrefix + hash[0:charsLeftForHash+1]", Expect: "C37.marker/short-shape"},
+				Old: "return fixedPrefix + shortenedPrefix + hash[0:shortenedLen-len(shortenedPrefix)-prefixLen]", New: "return fixedPrefix + hash[0:shortenedLen-prefixLen]", Expect: "C37.marker/short-shape"},
+			{Name: "F23 reintroduced: hash cut to the room under the limit without capping at the hash length", File: "libcalico-go/lib/hash/unique_id.go",
+				Old: "hash[0:shortenedLen-len(shortenedPrefix)-prefixLen]", New: "hash[0:charsLeftForHash]", Expect: "C37.marker/cut-in-hash"},
+			{Name: "shortened names always carry the whole hash, whatever the limit", File: "libcalico-go/lib/hash/unique_id.go",
+				Old: "shortenedLen := min(maxLength, prefixLen+len(shortenedPrefix)+base64.RawURLEncoding.EncodedLen(sha256.Size))", New: "shortenedLen := prefixLen + len(shortenedPrefix) + base64.RawURLEncoding.EncodedLen(sha256.Size)", Expect: "C37.marker/short-fits"},
 			{Name: "two static IP sets share an ID", File: "felix/rules/rule_defs.go",
 				Old: "IPSetIDAllVXLANSourceNets = \"all-vxlan-net\"", New: "IPSetIDAllVXLANSourceNets = \"all-hosts-net\"", Expect: "C37.ipsets/distinct"},
 			{Name: "policy-group UID hashes namespace and name of each member but not its kind", File: "felix/rules/endpoints.go",
@@ -111,7 +118,7 @@ func runC37(c *Ctx) {
 	c.Rule("C37.prefixes", "E-CONST", "dynamic chain-name prefixes: distinct, pairwise prefix-free, no static chain name inside their namespace, room for marker+hash, policy-group prefixes of equal length", 60)
 	c.Rule("C37.static", "E-CONST", "static chain names and dispatch child-chain names fit iptables.MaxChainNameLength", 40)
 	c.Rule("C37.sanitise", "E-FLOW", "chain-name sinks (Jump/GoTo target, Chain.Name) derive only from constants and the length-limiting name functions; length arguments are the back-end limit", 30)
-	c.Rule("C37.marker", "E-GUARD", "GetLengthLimitedID: unshortened return only if the name fits and is not a full-length marker-prefixed name; shortened return = prefix+marker+hash[:rest]", 3)
+	c.Rule("C37.marker", "E-GUARD/E-SYM", "GetLengthLimitedID: shortened return = prefix+marker+hash[0:cut] with cut ≤ maxLength-len(marker)-len(prefix) and cut ≤ len(hash); unshortened return only if the name fits and is not a marker-prefixed name of exactly the shortened length L = len(prefix)+len(marker)+cut (same expression)", 5)
 	c.Rule("C37.ipsets", "E-CONST", "static IP set IDs distinct, ':'-free, not truncated by NameForMainIPSet", 9)
 	c.Rule("C37.fields", "E-FIELDS", "every name-deriving function reads every exported field of the identity structs it is given (receiver / parameters / slice elements), so two identities differing in any field get different hash inputs; KindShortName maps kinds to pairwise distinct constants", 11)
 	c.Rule("C37.through", "E-FLOW", "every return of a chain/set name function is the result of the length-limiting function (GetLengthLimitedID / combineAndTrunc, possibly via a helper) or constant prefix + fixed-length hash: no path hands the identity to the name verbatim", 6)
@@ -750,13 +757,6 @@ func c37Marker(c *Ctx, p *Prog) {
 	isMarker := func(v ssa.Value) bool { s, ok := c10StrConst(v); return ok && s == marker }
 	var plain, short []*ssa.Return
 	suffix := fn.Params[1]
-	var flatten func(v ssa.Value) []ssa.Value
-	flatten = func(v ssa.Value) []ssa.Value {
-		if bo, ok := v.(*ssa.BinOp); ok && bo.Op == token.ADD {
-			return append(flatten(bo.X), flatten(bo.Y)...)
-		}
-		return []ssa.Value{v}
-	}
 	isSuffix := func(v ssa.Value) bool {
 		for _, o := range origins(v, nil) {
 			if o.V != suffix && !isMarker(o.V) {
@@ -766,7 +766,7 @@ func c37Marker(c *Ctx, p *Prog) {
 		return true
 	}
 	for _, r := range returnsOf(fn) {
-		ops := flatten(r.Results[0])
+		ops := c37Flatten(r.Results[0])
 		if len(ops) < 2 || ops[0] != prefix {
 			c.Undecided("C37.marker/shape", p.Pos(r.Pos()), "return value %s is not prefix + …", path(r.Results[0]))
 			continue
@@ -780,106 +780,196 @@ func c37Marker(c *Ctx, p *Prog) {
 	if len(plain) != 1 || len(short) != 1 {
 		c.Lost("GetLengthLimitedID: expected one unshortened and one shortened return, found %d/%d", len(plain), len(short))
 	}
-	// totalLen = len(prefix)+len(suffix)
-	isTotal := func(v ssa.Value) bool {
-		bo, ok := v.(*ssa.BinOp)
-		if !ok || bo.Op != token.ADD {
-			return false
-		}
-		isLen := func(x ssa.Value) bool {
-			call, ok := x.(*ssa.Call)
-			if !ok {
-				return false
-			}
-			b, ok := call.Common().Value.(*ssa.Builtin)
-			return ok && b.Name() == "len"
-		}
-		return isLen(bo.X) && isLen(bo.Y)
+	r, sr := plain[0], short[0]
+
+	// ---- the shortened name: prefix + marker + hash[0:cut]
+	ops := c37Flatten(sr.Results[0])
+	var sl *ssa.Slice
+	if len(ops) == 3 {
+		sl, _ = ops[2].(*ssa.Slice)
 	}
-	r := plain[0]
+	shape := ""
+	switch {
+	case len(ops) != 3 || !isMarker(ops[1]):
+		shape = "shortened name is not prefix + marker + hash"
+	case sl == nil || sl.High == nil:
+		shape = "shortened name does not end in a bounded slice of the hash"
+	default:
+		if lo := sl.Low; lo != nil {
+			if cv, isC := constOf(lo); !isC || cv.ExactString() != "0" {
+				shape = "the hash is not cut from its start"
+			}
+		}
+	}
+	c.Check(shape == "", "C37.marker/short-shape", p.Pos(sr.Pos()), "shortened name = prefix + marker + hash[0:cut]", shape+": shortened names no longer start with prefix+marker followed by hash characters, so they can collide with unshortened names")
+
+	lc := &c37Lens{prefix: prefix, maxLen: maxLen, isSuffix: isSuffix}
+	if shape == "" {
+		lc.hash = sl.X
+		lc.isHashLen = c37HashLenCalls(sl.X)
+	}
+	total := c37Expr{{coef: map[string]int64{"P": 1, "S": 1}}}
+	M := c37Lin{coef: map[string]int64{"M": 1}}
+	mlen := int64(len(marker))
+
+	// (c) names longer than maxLength are always shortened
 	fits := guardedCut(r, func(cond ssa.Value, pol bool) bool {
-		bo, ok := cond.(*ssa.BinOp)
-		if !ok {
+		rel, ok := c37EdgeRel(cond, pol)
+		if !ok || (rel.Op != "<" && rel.Op != "<=") {
 			return false
 		}
-		switch {
-		case bo.Op == token.GTR && isTotal(bo.X) && bo.Y == maxLen:
-			return !pol
-		case bo.Op == token.LEQ && isTotal(bo.X) && bo.Y == maxLen:
-			return pol
-		case bo.Op == token.LSS && bo.X == maxLen && isTotal(bo.Y):
-			return !pol
-		case bo.Op == token.GEQ && bo.X == maxLen && isTotal(bo.Y):
-			return pol
-		}
-		return false
+		l, ok1 := lc.norm(rel.L)
+		rr, ok2 := lc.norm(rel.R)
+		return ok1 && ok2 && l.same(total) && rr.leq(M)
 	})
 	c.Check(fits, "C37.marker/plain-fits", p.Pos(r.Pos()), "unshortened name returned only when len(prefix)+len(suffix) ≤ maxLength", "the unshortened return is reachable with len(prefix)+len(suffix) > maxLength: the name exceeds the kernel limit")
+
+	if shape != "" {
+		c.Undecided("C37.marker/short-fits", p.Pos(sr.Pos()), "shortened name has no recognisable cut length")
+		c.Undecided("C37.marker/cut-in-hash", p.Pos(sr.Pos()), "shortened name has no recognisable cut length")
+		c.Undecided("C37.marker/plain-not-marker", p.Pos(r.Pos()), "length of a shortened name unknown")
+		return
+	}
+	cut := sl.High
+	cutE, cutOK := lc.norm(cut)
+	cutTxt := path(cut)
+	if cutOK {
+		cutTxt = cutE.String()
+	}
+
+	// (a1) every shortened name fits: cut ≤ maxLength - len(marker) - len(prefix)
+	room := c37Lin{coef: map[string]int64{"M": 1, "P": -1}, k: -mlen}
+	c.Check(lc.bounded(cut, room, sl, 2), "C37.marker/short-fits", p.Pos(sl.Pos()),
+		fmt.Sprintf("cut = %s ≤ maxLength - %d - len(prefix): a shortened name never exceeds maxLength", cutTxt, mlen),
+		fmt.Sprintf("the hash is cut to %s characters, which is not provably ≤ maxLength - len(marker) - len(prefix): a shortened name can be longer than the kernel limit", cutTxt))
+
+	// (a2) the cut lies inside the hash: cut ≤ len(hash)
+	H := c37Lin{coef: map[string]int64{"H": 1}}
+	c.Check(lc.bounded(cut, H, sl, 2), "C37.marker/cut-in-hash", p.Pos(sl.Pos()),
+		fmt.Sprintf("cut = %s ≤ len(hash) (H): the slice stays inside the hash string", cutTxt),
+		fmt.Sprintf("the hash is cut to %s characters with nothing capping that at the hash's own length (no min() with len(hash)/EncodedLen(digest size), no guard): when maxLength - len(marker) - len(prefix) exceeds the hash length (43 for base64 SHA-256; e.g. the nftables limit 256) the slice runs past the end of the hash and panics, so identities that need shortening get no name", cutTxt))
+
+	// (b) a name as long as a shortened name and starting with the marker is never returned verbatim.
+	// L = len(prefix) + len(marker) + cut, as an expression; the length test of the shorten-condition
+	// must compare the total against that same expression.
+	if !cutOK {
+		c.Undecided("C37.marker/plain-not-marker", p.Pos(r.Pos()), "cut length %s is not a min/linear expression: cannot compare the clash test against the shortened length", path(cut))
+		return
+	}
+	L, _ := cutE.plus(c37Expr{{coef: map[string]int64{"P": 1}, k: mlen}}, 1)
+	wrongLen := ""
 	notMarker := guardedCut(r, func(cond ssa.Value, pol bool) bool {
 		bo, ok := cond.(*ssa.BinOp)
 		if !ok {
 			return false
 		}
-		if bo.Op == token.EQL || bo.Op == token.NEQ {
-			eqPol := pol
-			if bo.Op == token.NEQ {
-				eqPol = !pol
-			}
-			// totalLen == maxLength is false, or suffix[0:1] == marker is false
-			if (isTotal(bo.X) && bo.Y == maxLen) || (isTotal(bo.Y) && bo.X == maxLen) {
-				return !eqPol
-			}
-			if isMarker(bo.X) || isMarker(bo.Y) {
-				return !eqPol
-			}
+		// suffix[0:1] == marker is false
+		if (bo.Op == token.EQL || bo.Op == token.NEQ) && (isMarker(bo.X) || isMarker(bo.Y)) {
+			return (bo.Op == token.EQL) != pol
 		}
-		// or the name is strictly shorter
-		if bo.Op == token.LSS && isTotal(bo.X) && bo.Y == maxLen {
-			return pol
+		rel, ok := c37EdgeRel(cond, pol)
+		if !ok {
+			return false
+		}
+		l, ok1 := lc.norm(rel.L)
+		rr, ok2 := lc.norm(rel.R)
+		if !ok1 || !ok2 {
+			return false
+		}
+		switch rel.Op {
+		case "!=":
+			if (l.same(total) && rr.same(L)) || (rr.same(total) && l.same(L)) {
+				return true
+			}
+			if l.same(total) {
+				wrongLen = rr.String()
+			} else if rr.same(total) {
+				wrongLen = l.String()
+			}
+		case "<":
+			// strictly shorter than a shortened name
+			return l.same(total) && rr.same(L)
 		}
 		return false
 	})
-	c.Check(notMarker, "C37.marker/plain-not-marker", p.Pos(r.Pos()), "a full-length unshortened name never starts with the marker", "a name of exactly maxLength characters whose suffix starts with the marker is returned unshortened: it can equal another identity's shortened name")
-	// shortened = (prefix + marker) + hash[0 : maxLength-1-len(prefix)]
-	sr := short[0]
-	msg := ""
-	ops := flatten(sr.Results[0])
-	var sl *ssa.Slice
-	if len(ops) == 3 {
-		sl, _ = ops[2].(*ssa.Slice)
+	bad := fmt.Sprintf("a name of exactly the length of a shortened name (%s) whose suffix starts with the marker is returned unshortened: it can equal another identity's shortened name", L)
+	if wrongLen != "" {
+		bad += fmt.Sprintf(" (the clash test compares the total length against %s, but shortened names have length %s)", wrongLen, L)
 	}
-	switch {
-	case len(ops) != 3 || !isMarker(ops[1]):
-		msg = "shortened name is not prefix + marker + hash"
-	case sl == nil || sl.High == nil:
-		msg = "shortened name does not end in a bounded slice of the hash"
-	default:
-		// High = (maxLength - 1) - len(prefix)
-		hi, ok := sl.High.(*ssa.BinOp)
-		good := false
-		if ok && hi.Op == token.SUB {
-			if in2, ok := hi.X.(*ssa.BinOp); ok && in2.Op == token.SUB && in2.X == maxLen {
-				if cv, isC := constOf(in2.Y); isC {
-					if n, _ := constant.Int64Val(cv); n == int64(len(marker)) {
-						if call, isCall := hi.Y.(*ssa.Call); isCall {
-							if b, isB := call.Common().Value.(*ssa.Builtin); isB && b.Name() == "len" && call.Common().Args[0] == prefix {
-								good = true
-							}
-						}
-					}
+	c.Check(notMarker, "C37.marker/plain-not-marker", p.Pos(r.Pos()), fmt.Sprintf("an unshortened name of the shortened length %s never starts with the marker", L), bad)
+}
+
+// c37HashLenCalls: hash is enc.EncodeToString(digest).  Returns a predicate for
+// calls that yield len(hash) by construction: enc.EncodedLen(n) on the same
+// encoding with n the digest's size (pkg.Size* of the pkg.New* constructor the
+// digest's Sum is taken from, or the length of the array a fixed-size digest is
+// sliced from).
+func c37HashLenCalls(hash ssa.Value) func(*ssa.Call) bool {
+	enc, ok := hash.(*ssa.Call)
+	if !ok {
+		return nil
+	}
+	f := calleeOf(enc.Common())
+	if f == nil || f.Name() != "EncodeToString" || f.Pkg() == nil || !strings.HasPrefix(f.Pkg().Path(), "encoding/") || len(enc.Call.Args) != 2 {
+		return nil
+	}
+	encOf := func(v ssa.Value) *ssa.Global {
+		if u, ok := v.(*ssa.UnOp); ok && u.Op == token.MUL {
+			g, _ := u.X.(*ssa.Global)
+			return g
+		}
+		return nil
+	}
+	g := encOf(enc.Call.Args[0])
+	if g == nil {
+		return nil
+	}
+	size := int64(-1)
+	switch d := enc.Call.Args[1].(type) {
+	case *ssa.Call: // hasher.Sum(…)
+		if d.Call.IsInvoke() && d.Call.Method.Name() == "Sum" {
+			for _, o := range origins(d.Call.Value, nil) {
+				ctor, ok := o.V.(*ssa.Call)
+				if !ok {
+					return nil
 				}
+				cf := calleeOf(ctor.Common())
+				if cf == nil || cf.Pkg() == nil || !strings.HasPrefix(cf.Name(), "New") {
+					return nil
+				}
+				k, ok := cf.Pkg().Scope().Lookup("Size" + strings.TrimPrefix(cf.Name(), "New")).(*types.Const)
+				if !ok {
+					return nil
+				}
+				n, exact := constant.Int64Val(k.Val())
+				if !exact || (size >= 0 && size != n) {
+					return nil
+				}
+				size = n
 			}
 		}
-		if lo := sl.Low; lo != nil {
-			if cv, isC := constOf(lo); !isC || cv.ExactString() != "0" {
-				good = false
+	case *ssa.Slice: // sum := sha256.Sum256(x); sum[:]
+		if pt, ok := d.X.Type().Underlying().(*types.Pointer); ok {
+			if at, ok := pt.Elem().Underlying().(*types.Array); ok && d.Low == nil && d.High == nil {
+				size = at.Len()
 			}
-		}
-		if !good {
-			msg = "hash is cut to " + path(sl.High) + ", expected maxLength - len(marker) - len(prefix)"
 		}
 	}
-	c.Check(msg == "", "C37.marker/short-shape", p.Pos(sr.Pos()), "shortened name = prefix + marker + hash[:maxLength-1-len(prefix)] (exactly maxLength characters)", msg+": shortened names are no longer exactly maxLength characters starting with the marker, so they can collide with unshortened names")
+	if size < 0 {
+		return nil
+	}
+	return func(call *ssa.Call) bool {
+		cf := calleeOf(call.Common())
+		if cf == nil || cf.Name() != "EncodedLen" || cf.Pkg() != f.Pkg() || len(call.Call.Args) != 2 || encOf(call.Call.Args[0]) != g {
+			return false
+		}
+		cv, ok := constOf(call.Call.Args[1])
+		if !ok {
+			return false
+		}
+		n, exact := constant.Int64Val(cv)
+		return exact && n == size
+	}
 }
 
 // ------------------------------------------------------------------ ipsets --
